@@ -24,3 +24,5 @@ uint64_t vp_nd_raw(void) {
     default: return r;
   }
 }
+/* generated C calls __CPROVER_fence(...) for seq_cst fences/stores: a no-op in the (sequential) native build */
+void __CPROVER_fence(const char* a, ...) { (void)a; }
